@@ -28,6 +28,9 @@ var causeReasons = map[string][]string{
 	"close-true":      {"forced close"},
 	"server-close":    {"forced close", "server close"},
 	"parse-error":     {"parse error", "transport error"},
+	// a frame the parser refuses, on a framed transport (WebSocket, WebTransport): the documented
+	// reason for that cause is exactly 'parse error'
+	"parse-error-frame": {"parse error"},
 }
 
 type c03Case struct {
@@ -388,7 +391,15 @@ func runC03(c c03Case, r *rep.Report) (key, msg string, stats map[string]int64) 
 				// statement does not demand a close for it
 				wantClosed = false
 			}
-			if k, m := judgeLifecycle(w, sid, c.Causes, wantClosed); k != "" {
+			judged := append([]string(nil), c.Causes...)
+			if c.Transport != "polling" {
+				for i, cs := range judged {
+					if cs == "parse-error" {
+						judged[i] = "parse-error-frame"
+					}
+				}
+			}
+			if k, m := judgeLifecycle(w, sid, judged, wantClosed); k != "" {
 				key, msg = k, m
 				return
 			}
